@@ -46,6 +46,11 @@ CHECKS = {
          "Events {authenticate, RoomList, clock early/late, definition-change notification for each of 7 rooms} are explored breadth-first to depth 4 (5 thorough) on a connection of the real serving side and deduplicated on (authenticated, ready, readable room set, clock); in each of the distinct serving states all 13 query kinds are issued for each of 7 rooms (requester member, former member, future member, never member, admin only, user admin only, disabled admin) plus cross-room identifier tuples through the real process_inbound, every answer is decoded with the type the client expects, and any row, reference, deletion record, log line, member list or definition of a room where the oracle says the requester is not a member at that time - or anything before authentication - is a leak.",
          "The notification rule of the private process_local_event is emulated with the real Room::has_user; authentication is set as initialise_connection does after a successful proof (C19 decides the proof). Canonical state soundness: process_inbound reads no other connection state.",
          "DESIGN.md section 5 C08"),
+ "C18": ("model_checking",
+         "exhaustive enumeration of operation sequences, same-batch pairs (writer gate) and interrupted pulls on the real service with two subscribers, differential oracle on stored content",
+         "Every sequence of up to 2 operations (3 over a core alphabet in thorough) from 16 operations (create/update/delete over 2 rooms x 2 entities x 2 days, a closed mutation stream, a room mutation, ingestion by a real pull), every ordered pair of local operations forced into one writer transaction by parking the writer at its gate, and pulls interrupted after 1..14 protocol answers run on a real instance with two subscribers; once quiescent every (room, entity, day) cell whose stored signatures changed must have been named by a data-changed event on both subscribers, every accepted room mutation must have produced a room-modified event, and no recompute mark may remain.",
+         "Quiescence = two FIFO round trips through database actor, writer and event service. Subscribers are drained after every workload (the broadcast channel holds 16 events; overflow of an undrained subscriber is not explored).",
+         "DESIGN.md section 5 C18"),
 }
 
 NOT_YET = {
